@@ -333,12 +333,35 @@ def run(fx, R, tier):
                                                      if concurrent(ra, rb, SB is SA) and any(overlap(b.path, c) and b.kind == 'W' for b in SB.accesses)]
                                     if observers and bad is None:
                                         bad = (m, a1, a2, observers[0])
+            # split update: the entry WRITES guarded storage in two separate acquisitions of one mutex (possibly different fields, possibly one of them inside a callee).  The call is then not atomic for
+            # the readers: a thread that reads what the first section wrote and then what the second section writes can get the new value followed by the old one, which no sequential ordering of the calls gives
+            split = None
+            for m, d in by_acq.items():
+                ids = sorted(d)
+                for i1 in range(len(ids)):
+                    for i2 in range(i1 + 1, len(ids)):
+                        w1 = [a for a in d[ids[i1]] if a.kind == 'W' and not exempt(a) and not any(a.locks & b.locks for b in d[ids[i2]])]
+                        w2 = [a for a in d[ids[i2]] if a.kind == 'W' and not exempt(a) and not any(a.locks & b.locks for b in d[ids[i1]])]
+                        for a1 in w1:
+                            for a2 in w2:
+                                if overlap(a1.path, a2.path):
+                                    continue            # the same storage twice: the rule above
+                                ob1 = [nb for (nb, rb, SB, fb) in sums if concurrent(ra, rb, SB is SA) and SB is not SA and any(overlap(b.path, a1.path) and b.kind == 'R' for b in SB.accesses)]
+                                ob2 = [nb for (nb, rb, SB, fb) in sums if concurrent(ra, rb, SB is SA) and SB is not SA and any(overlap(b.path, a2.path) and b.kind == 'R' for b in SB.accesses)]
+                                if ob1 and ob2 and split is None:
+                                    split = (m, a1, a2, ob1[0], ob2[0])
+            if split and not bad:
+                m, a1, a2, o1, o2 = split
+                R.violated('L3', '%s::%s:split-update:%s+%s' % (cname, na, field_key(fx, cq, a1.path), field_key(fx, cq, a2.path)),
+                           'entry %s writes %s under one acquisition of %s (%s) and %s under a LATER, separate acquisition (%s): between the two the object shows the first part of the update without the second.  '
+                           'A reader that calls %s and then %s in that gap gets the value of update k followed by the value of update k-1; no sequential ordering of the calls produces that pair (every access is locked, so '
+                           'a race detector sees nothing)' % (na, disp(a1.path), disp(m), a1.loc, disp(a2.path), a2.loc, o1, o2), a2.loc, 'E-LOCK')
             if bad:
                 m, a1, a2, ob = bad
                 R.violated('L3', '%s::%s:%s' % (cname, na, field_key(fx, cq, common(a1.path, a2.path))),
                            'entry %s touches %s under two separate acquisitions of %s (%s and %s); concurrent entry %s can observe the intermediate state' % (
                                na, disp(common(a1.path, a2.path)), disp(m), a1.loc, a2.loc, ob), a2.loc, 'E-LOCK')
-            elif by_acq:
+            elif by_acq and not split:
                 R.holds('L3', '%s::%s' % (cname, na), 'guarded accesses of each mutex lie in one critical section', engine='E-LOCK')
     R.note('entry_points', n_entries)
     R.note('guard_acquisitions', n_guards)
